@@ -3,6 +3,7 @@ package main
 import (
 	"flag"
 	"fmt"
+	"golang.org/x/tools/go/ssa"
 	"os"
 	"runtime"
 	"sort"
@@ -22,6 +23,8 @@ func main() {
 		checkMain(os.Args[2:])
 	case "list":
 		listMain(os.Args[2:])
+	case "externals":
+		externalsMain()
 	default:
 		fmt.Fprintln(os.Stderr, "unknown command")
 		os.Exit(2)
@@ -152,5 +155,56 @@ func devMain(args []string) {
 	if bad > 0 {
 		fmt.Printf("%d problems\n", bad)
 		os.Exit(1)
+	}
+}
+
+func externalsMain() {
+	P, err := loadProg("/repo", "/verif/assumed")
+	if err != nil {
+		fmt.Fprintln(os.Stderr, err)
+		os.Exit(2)
+	}
+	cnt := map[string]int{}
+	sig := map[string]string{}
+	for _, fn := range P.repoFns {
+		for _, b := range fn.Blocks {
+			for _, in := range b.Instrs {
+				ci, ok := in.(ssa.CallInstruction)
+				if !ok {
+					continue
+				}
+				c := ci.Common()
+				if c.IsInvoke() {
+					k := "invoke " + typeKey(c.Value.Type()) + "." + c.Method.Name()
+					cnt[k]++
+					sig[k] = c.Method.Type().String()
+					continue
+				}
+				if f := c.StaticCallee(); f != nil {
+					if f.Pkg != nil && P.repoPkgs[f.Pkg.Pkg] {
+						continue
+					}
+					if pkgOf(f) != nil && P.repoPkgs[pkgOf(f)] {
+						continue
+					}
+					k := P.funcKey(f)
+					cnt[k]++
+					sig[k] = f.Signature.String()
+					continue
+				}
+				if _, isB := c.Value.(*ssa.Builtin); isB {
+					continue
+				}
+				k := "dynamic " + c.Value.Type().String()
+				cnt[k]++
+			}
+		}
+	}
+	for _, k := range sortedKeys(cnt) {
+		mark := " "
+		if len(P.specs[k]) > 0 {
+			mark = "*"
+		}
+		fmt.Printf("%s %3d %s  %s\n", mark, cnt[k], k, sig[k])
 	}
 }
